@@ -249,7 +249,9 @@ func (g *G) sniffBytes() ([]byte, string) {
 			"SPDXVersion: spdx-2.3", "xSPDXVersion: SPDX-2.2", "SPDXVersion SPDX-2.3", "SPDXVersion:SPDX-2.2SPDX-2.3", "spdxversion: SPDX-2.3",
 			// values cut short at every position of the version text
 			"SPDXVersion: ", "SPDXVersion: S", "SPDXVersion: SPDX", "SPDXVersion: SPDX-", "SPDXVersion: SPDX-2", "SPDXVersion: SPDX-2.", "SPDXVersion: 2.3",
-			"# SPDXVersion: ?", "SPDXVersion:\tSPDX-2.3", "SPDXVersion: SPDX-3"}))
+			"# SPDXVersion: ?", "SPDXVersion:\tSPDX-2.3", "SPDXVersion: SPDX-3",
+			// text in front of the tag whose length changes under case mapping, and bytes that are not text
+			"ȺȺȺȺȺȺȺȺȺȺȺȺ SPDXVersion: SPDX-2.3", "ȺȾ SPDXVersion:", "\xff\xfe\xff\xfe\xff\xfe\xff\xfeSPDXVersion: SPDX-2.2", "İİİİİİİİİİ SPDXVersion: SPDX-2.3", "ẞẞẞẞ SPDXVERSION: spdx-2.2"}))
 		for i := 0; i < g.Int(4); i++ {
 			lines = append(lines, g.Pick([]string{"Comment: \"SPDX-2.3\"", "Comment: 'SPDX-2.2'", "SPDX-2.3", "DocumentName: y", "Comment: \"SPDX-2.1\"", "SPDXVersion: SPDX-2.2"}))
 		}
@@ -435,6 +437,9 @@ func oracleSniff(op M, res any, exec func(M) any) []Finding {
 		if got != "err" && got != "neither" && got != "err+format" {
 			// the reported format agrees with the declaration of the input
 			f := formats.Format(got)
+			if f.Major()+"."+f.Minor() != f.Version() {
+				add("reported %q: its version accessors give major %q, minor %q and version %q", got, f.Major(), f.Minor(), f.Version())
+			}
 			if d, isDecl := im["decl"].([]any); isDecl {
 				switch {
 				case f.Type() == formats.CDXFORMAT:
